@@ -179,10 +179,32 @@ def main(argv=None):
     ctrl_bad = [c for c in controls if c["status"] != "refuted"]
     # replays
     from vt import replay as R
+    # an obligation the verifier could not decide (construct outside the modelled subset, solver limit, structure the
+    # extractor does not recognise) is handed to the native search of its replay harness: a failing input found on the
+    # REAL code against the independent reference formula is a violation (refutation only -- it never discharges)
+    done_replays = {}
+    for c in list(undecided) + list(errors):
+        if c in bounded_und or R.find_replay(mod, c["obligation"]) is None:
+            continue
+        path = os.path.join(RPD, "%s-%s.json" % (prop, re.sub(r"[^A-Za-z0-9_.-]", "_", c["obligation"])))
+        key = R.find_replay(mod, c["obligation"])[1:3] + (json.dumps(R.find_replay(mod, c["obligation"])[3], sort_keys=True),)
+        rep = R.make_replay(prop, c, path, seed, mod, cached=done_replays.get(key))
+        done_replays[key] = rep.get("replay")
+        if rep.get("reproduced"):
+            c["detail"] = "not decided symbolically (%s); the native search on the real code found a failing input: %s" % (
+                (c.get("detail") or "")[:200], json.dumps(rep["replay"].get("observed", rep["replay"].get("what", "")), default=str)[:300])
+            c["status"], c["backend"] = "refuted", ((c.get("backend") or "") + "+replay").lstrip("+")
+            (undecided if c in undecided else errors).remove(c)
+            k = match_known(known, prop, c)
+            if k is not None:
+                kfound.append((k, c))
+            else:
+                violations.append(c)
+                c["_rep"] = rep
     vlines = []
     for c in violations:
         path = os.path.join(RPD, "%s-%s.json" % (prop, re.sub(r"[^A-Za-z0-9_.-]", "_", c["obligation"])))
-        rep = R.make_replay(prop, c, path, seed, mod)
+        rep = c.pop("_rep", None) or R.make_replay(prop, c, path, seed, mod)
         tail = "" if rep.get("reproduced") else " no-failing-input-found"
         vlines.append("VIOLATION property=%s replay=%s obligation=%s%s" % (prop, path, c["obligation"], tail))
     for k, c in kfound:
@@ -209,7 +231,7 @@ def main(argv=None):
             "bounded_checks": bounded,
             "known_findings": [{"finding": k["id"], "obligation": c["obligation"], "what": k["what"]} for k, c in kfound],
             "encoding_crosscheck": [{"group": r["group"], "ok": r.get("ok"), "cases": r.get("cases"), "mismatches": r.get("mismatches", [])[:3],
-                                     "error": r.get("error")} for r in xres],
+                                     "error": r.get("error"), "skipped": r.get("skipped")} for r in xres],
             "vacuity_controls": {"run": len(controls), "refuted_as_required": len(controls) - len(ctrl_bad),
                                  "samples": controls[:10]},
             "undecided": undecided, "errors": errors,
